@@ -17,6 +17,15 @@ package main
 // go2lean_string.go (strings as byte lists, error / interface{} as Options,
 // map literals, make + element assignment, Sprintf, comma-ok pairs; ON only
 // when Basic["string"] is set); taxidsrc.go is the configuration that uses it.
+// OPT-IN EXTENSIONS, each ON only for the configurations that set its flag, so
+// that a configuration is translated by exactly the translator it was written
+// and proved against: go2lean_effects.go (Effects; billcalcsrc.go),
+// go2lean_own.go (Own; taxtotalssrc.go), go2lean_env.go (G2LEnvRegister;
+// envelopesrc.go, correctsrc.go), go2lean_buffer.go (byte mode: Basic["string"]
+// = GoblVerif.GoBytes.Str; c14nsrc.go) — these four treat functions without
+// result and writes in place differently and exclude each other —,
+// go2lean_codec.go (Codec; codecsrc.go), go2lean_refs.go (G2LEnableRefs;
+// refssrc.go).
 //
 // HOW TO USE IT FOR ANOTHER PACKAGE (numsrc.go is the worked example,
 // testdata/g2l + go2lean_test.go the fixture for everything num does not need):
@@ -106,6 +115,7 @@ type G2LConfig struct {
 	Title     string               // first line of the header comment
 	Imports   []string             // Lean imports
 	Opens     []string             // Lean `open`s
+	Preamble  []string             // Lean commands after the `open`s (e.g. `variable [C]`), go2lean_own.go
 	Basic     map[string]string    // Go basic type → Lean type; defaults in g2lBasicDefault
 	Named     map[string]string    // other named Go types (qualified as pkgname.Type outside Pkg) → Lean type
 	Structs   map[string]G2LStruct // named Go structs → representation
@@ -122,6 +132,13 @@ type G2LConfig struct {
 	// method key ("pkg.Recv.Method") → Lean template of the NEW VALUE of the receiver's pointee ({0} the pointee,
 	// {1} … the arguments): the statement `x.M(a)` becomes `x := template` (go2lean_effects.go)
 	EffPrims map[string]string
+	// The two extensions below both deal with functions without result, writes in place and range loops, in
+	// different ways (so do go2lean_env.go, switched on by G2LEnvRegister, and the byte mode of go2lean_buffer.go);
+	// each is OFF unless the configuration asks for it, and a configuration asks for at most one of the four
+	// (G2LRun refuses more).  With none, a function without result is untranslated.
+	Effects bool // go2lean_effects.go: context parameters, effect loops, a function without result returns its in-out parameters alone (billcalcsrc.go)
+	Own     bool // go2lean_own.go: owned locals, cursors, a function without result returns Unit × its in-out parameters (taxtotalssrc.go)
+
 	Codec    bool              // named results, `*p = v` on in-out parameters, []byte ↔ string, %0*d (go2lean_codec.go)
 	OutPrims map[string]string // call key → template of a primitive that writes through its last argument (go2lean_codec.go)
 }
@@ -429,9 +446,15 @@ func (g *g2l) leanType(t types.Type) (string, error) {
 
 // zero value of a type, as Lean text
 func (g *g2l) zero(t types.Type) (string, error) {
+	if z, ok := g.zeroBuf(t); ok { // go2lean_buffer.go: bytes.Buffer
+		return z, nil
+	}
 	lt, err := g.leanType(t)
 	if err != nil {
 		return "", err
+	}
+	if z, ok := g.zeroOpaque(t, lt); ok { // go2lean_own.go (Own configurations): opaque named types (`default`, pinned by opaqueZeros)
+		return z, nil
 	}
 	switch g2lKindOf(t) {
 	case kInt, kUint, kFloat:
@@ -630,9 +653,24 @@ func g2lOneLine(s string) string { return strings.Join(strings.Fields(s), " ") }
 
 // ---------------------------------------------------------------- run
 
+func g2lCount(bs ...bool) (n int) {
+	for _, b := range bs {
+		if b {
+			n++
+		}
+	}
+	return n
+}
+
 // G2LRun translates what cfg asks for and returns the text of the Lean module.
 func G2LRun(cfg *G2LConfig) (string, error) {
 	g := &g2l{cfg: cfg, units: map[string]*g2lUnit{}}
+	if n := g2lCount(cfg.Effects, cfg.Own, g.envOn(), g.bytesOn()); n > 1 {
+		return "", fmt.Errorf("configuration %s: Effects, Own, G2LEnvRegister and the byte mode exclude each other", cfg.Namespace)
+	}
+	if !cfg.Effects && (len(cfg.Context) > 0 || len(cfg.EffPrims) > 0) {
+		return "", fmt.Errorf("configuration %s: Context / EffPrims need Effects", cfg.Namespace)
+	}
 	if err := g.load(); err != nil {
 		return "", err
 	}
@@ -777,6 +815,9 @@ func (g *g2l) emit(sorted []string) string {
 	w("\nset_option linter.unusedVariables false\n\nnamespace %s\n", cfg.Namespace)
 	for _, o := range cfg.Opens {
 		w("open %s\n", o)
+	}
+	for _, p := range cfg.Preamble {
+		w("%s\n", p)
 	}
 	// structs
 	w("\n/-! ## Go struct declarations (facts) and their Lean representation -/\n\n")
